@@ -43,7 +43,7 @@ THEOREMS = ["IwModel.C15.parsed_wf", "IwModel.C15.klidx_inv", "IwModel.C15.klidx
             "IwModel.C15.binary_rfc_partial", "IwModel.C15.apply_rfc_err_partial", "IwModel.C15.binary_err_partial", "IwModel.C15.pointer_text_roundtrip", "IwModel.C15.patch_document_decoded", "IwModel.C15.jbl_patch_rfc_partial",
             "IwModel.C15.ext_increment", "IwModel.C15.ext_add_create_existing", "IwModel.C15.ext_add_create", "IwModel.C15.ext_swap",
             "IwModel.C15.binn_atomic", "IwModel.C15.binary_error_reported",
-            "IwModel.C15.jbl_bytes_atomic", "IwModel.C15.jbl_bytes_compose", "IwModel.C15.jbl_bytes_patch",
+            "IwModel.C15.bytes_holder", "IwModel.C15.jbl_bytes_from_json", "IwModel.C15.jbl_bytes_atomic", "IwModel.C15.jbl_bytes_compose", "IwModel.C15.jbl_bytes_patch",
             "IwModel.C15.rfc_result_leafOk", "IwModel.C15.jbl_bytes_rfc_partial", "IwModel.C15.jbl_bytes_rfc_seq_partial",
             "IwModel.C15.holds_bytesB", "IwModel.C15.progBB_ok",
             "IwModel.C15.missing_target_reported", "IwModel.C15.slash_root_witness", "IwModel.C15.dash_last_witness"]
